@@ -66,6 +66,10 @@ type PacketWriter interface {
 
 // ReadPacket 根据规范从 r 中读取 rtp 包.
 // channelConfig 提供通道类型所在通道的配置信息
+// A nil packet with an error means the frame could not be read (the connection
+// is unusable). A non-nil packet together with an error means the frame was
+// consumed completely but is refused (unknown channel, RTP header that does not
+// parse): the packet must not be used, reading can go on with the next item.
 func ReadPacket(r *bufio.Reader, channelConfig []int) (*Packet, error) {
 	var err error
 
@@ -95,13 +99,16 @@ func ReadPacket(r *bufio.Reader, channelConfig []int) (*Packet, error) {
 			p.Channel = byte(i)
 			if p.Channel == ChannelVideo || p.Channel == ChannelAudio {
 				if err = unmarshalHeader(&p.Header, p.Data); err != nil {
-					return nil, err
+					// the frame was read completely, the reader is positioned behind it:
+					// hand it back with the error so that the caller can skip it
+					return p, err
 				}
 			}
 			return p, nil
 		}
 	}
-	return nil, errors.New("RTP Packet illegal channel")
+	// as above: a complete frame on a channel that nobody set up can be skipped
+	return p, errors.New("RTP Packet illegal channel")
 }
 
 // unmarshalHeader 解析 RTP 头。
